@@ -29,7 +29,7 @@ from elementpath.tdop import Token, MultiLabel
 from elementpath.helpers import ordinal, get_double
 from elementpath.xpath_context import XPathContext, XPathSchemaContext
 from elementpath.xpath_nodes import XPathNode, NamespaceNode, DocumentNode, ElementNode, \
-    SchemaElementNode, SchemaAttributeNode
+    SchemaElementNode, SchemaAttributeNode, AttributeNode
 from elementpath.sequences import xlist
 
 if TYPE_CHECKING:
@@ -628,13 +628,13 @@ class XPathToken(Token[ta.XPathTokenType]):
         op1 = self.get_argument(context, cls=cls)
         if op1 is None:
             return None, None
-        elif isinstance(op1, ElementNode):
+        elif isinstance(op1, (ElementNode, AttributeNode)):
             op1 = self._items[0].data_value(op1)
 
         op2 = self.get_argument(context, index=1, cls=cls)
         if op2 is None:
             return None, None
-        elif isinstance(op2, ElementNode):
+        elif isinstance(op2, (ElementNode, AttributeNode)):
             op2 = self._items[1].data_value(op2)
 
         if isinstance(op1, AbstractDateTime) and isinstance(op2, AbstractDateTime):
